@@ -125,7 +125,7 @@ theorem both_polarities_one_entity_all : ∀ t ∈ alts true, ∀ f ∈ alts fal
   simpa [bothPair] using this
 
 /-- C20 (score, UNIVERSAL — every query): whatever `recognize_boolean` reports carries a score in `[0, 1]`.  Now that
-`ChoiceParser.parse` hands on the extractor's own `top_score` (the maximum of `match_value` over the start positions),
+`ChoiceParser.parse` (/repo aeefbdd20) hands on the extractor's own `top_score` (the maximum of `match_value` over the start positions),
 this is a statement about the score COMPUTATION: `score_unit_interval` lifted through `top_score`, the partial results,
 the sort, the top-match selection and the parser.  It also holds for the code before that fix (the constructor default
 `0.0`, `genEnvPreFix3`). -/
@@ -138,7 +138,7 @@ theorem reported_score_unit_interval (q : Str) (rs : List MR) :
 theorem reported_score_unit_interval_any (E : Env) (hm : E.missIndex = -1) (q : Str) (rs : List MR)
     (h : recognise E q = some rs) : ∀ r ∈ rs, InUnit r.score := recognise_unit E hm q rs h
 
-/-- REGRESSION (before `boolean-score-from-extractor.diff`, holds by the shape of that code): the parser built a new
+/-- REGRESSION (before /repo aeefbdd20, `boolean-score-from-extractor.diff`; holds by the shape of that code): the parser built a new
 `ChoiceExtractDataResult` and reported its default score `0.0`, whatever the extractor had computed -/
 theorem prefix_reported_score_is_parser_default (E : Env) (hk : E.parserKeepsScore = false) (q : Str) (rs : List MR)
     (h : recognise E q = some rs) : ∀ r ∈ rs, r.score = Score.zero := by
